@@ -5,8 +5,15 @@ metrics, .notdef variant, keepGlyphNames, op alphabet, maximum length); every la
 glyph.  Every prefix is a state of its own, compiled by the real ufo2ft, saved, reloaded, re-saved.
 
   part "h": op = [advance, outline]     advance in {0, 500.5, 600}, outline in {none, box, neg, comp}
-  part "v": op = [height, vorg, outline] height in {0, 1000.5}, vorg in {None, 800, 900.5}, outline in {none, box}
+  part "v": op = [height, vorg, outline] height in {0, 1000.5}, outline in {none, box}, vorg from one of two
+            palettes: "a" {None, 0, 900.5} (explicit origin ON the baseline: 0 is a value, not "undefined") and
+            "b" {0, 800, -100.5}
   part "cp": op = code point (or None) of the next glyph, from a palette around 0xFFFF
+  part "rt": op = [advance, outline] where the outlines are boxes whose extrema are fractional on the dyadic
+            grid (x.25 / x.5 / x.75), negative and positive; the configuration adds roundTolerance in
+            {None (=0.5), 0.25, 0.1, 0} for the CFF / CFF2 flavours (TTF: None only).  With a tolerance below
+            0.5 the charstrings keep the fractional coordinates and the integer box fields (hmtx lsb, vmtx tsb,
+            head bbox, hhea/vhea extents, CFF FontBBox) have to ENCLOSE the stored extrema tightly.
 
 The oracle recomputes every derived field from the *stored glyph data of the reloaded font* (glyf
 points / charstring drawing, hmtx/vmtx decoded entries, cmap) with plain arithmetic.
@@ -32,7 +39,19 @@ NEGBOX = B.box(-40, -10, 250, 500)
 COMP_OFFSET = (30, 10)
 H_OPS_SMALL = [[a, k] for a in ADVANCES for k in ("none", "box")]
 H_OPS_FULL = [[a, k] for a in ADVANCES for k in ("none", "box", "neg", "comp")]
-V_OPS = [[ht, vo, k] for ht in (0, 1000.5) for vo in (None, 800, 900.5) for k in ("none", "box")]
+VORG_PALETTES = {"a": [None, 0, 900.5], "b": [0, 800, -100.5]}
+V_OPS = {p: [[ht, vo, k] for ht in (0, 1000.5) for vo in pal for k in ("none", "box")]
+         for p, pal in VORG_PALETTES.items()}
+# fractional extrema on the dyadic grid: negative minima, positive extrema, a glyph that lies entirely in the
+# negative quadrant (negative maxima) and half-integer extrema on both sides of zero
+FRAC_SHAPES = {
+    "fneg": B.box(-20.75, -180.25, 210.25, 650.75),
+    "fpos": B.box(40.25, 10.75, 470.75, 700.25),
+    "fallneg": B.box(-380.75, -150.25, -30.25, -60.75),
+    "fhalf": B.box(-30.5, -10.5, 300.5, 90.5),
+}
+RT_OPS = [[600, "none"], [600, "box"], [500.5, "fneg"], [600, "fpos"], [0, "fallneg"], [600, "fhalf"]]
+RT_TOLERANCES = [None, 0.25, 0.1, 0]
 CP_PALETTE = [None, 0x20, 0x41, 0xFFFE, 0xFFFF, 0x10000, 0x10FFFF]
 VERT_INFO = {"openTypeVheaVertTypoAscender": 500, "openTypeVheaVertTypoDescender": -500,
              "openTypeVheaVertTypoLineGap": 0}
@@ -57,7 +76,7 @@ def build_spec(h):
     for i, op in enumerate(h[1:]):
         name = NAMES[i]
         g = {"unicodes": [0x61 + i]}
-        if cfg["part"] == "h":
+        if cfg["part"] in ("h", "rt"):
             adv, kind = op
             g["width"] = adv
             g["height"] = 1000
@@ -78,6 +97,8 @@ def build_spec(h):
             g["contours"] = [BOX]
         elif kind == "neg":
             g["contours"] = [NEGBOX]
+        elif kind in FRAC_SHAPES:
+            g["contours"] = [FRAC_SHAPES[kind]]
         elif kind == "comp":
             g["components"] = [(prev_outline, (1, 0, 0, 1) + COMP_OFFSET)]
         if kind != "none":
@@ -96,14 +117,15 @@ def build_spec(h):
     return {"glyphs": glyphs, "order": order, "info": info, "lib": lib}, src
 
 
-def compile_font(spec, flavour, opt=1):
+def compile_font(spec, flavour, opt=1, tol=None):
     """optimizeCFF=1 (specialise, no subroutiniser: 60 ms saved per state) except in the few
     "subr" states that run the default pipeline (optimizeCFF=2, cffsubr)."""
     import ufo2ft
     font = B.build_font(spec)
     if flavour == "ttf":
         return ufo2ft.compileTTF(font)
-    return ufo2ft.compileOTF(font, optimizeCFF=opt, cffVersion=1 if flavour == "otf" else 2)
+    kw = {} if tol is None else {"roundTolerance": tol}
+    return ufo2ft.compileOTF(font, optimizeCFF=opt, cffVersion=1 if flavour == "otf" else 2, **kw)
 
 
 def save(tt):
@@ -137,6 +159,21 @@ def _box_of(points):
     return (min(xs), min(ys), max(xs), max(ys))
 
 
+def int_box(raw, tol):
+    """The integer box of a stored outline box: every side is moved outwards to the next integer (floor for
+    the minima, ceil for the maxima) so that the integer box ENCLOSES the outline and is tight, unless the
+    value is within `tol` of its rounding (then the rounded value; with tol >= 0.5 always).  For integer
+    coordinates this is the identity."""
+    import math
+
+    def side(v, outwards):
+        r = R.otround(v)
+        if tol >= 0.5 or abs(r - v) <= tol:
+            return r
+        return int(outwards(v))
+    return (side(raw[0], math.floor), side(raw[1], math.floor), side(raw[2], math.ceil), side(raw[3], math.ceil))
+
+
 def glyf_points(glyf, name, depth=0):
     """All points of a glyf glyph with components resolved (translation only) + statistics
     (points, contours, depth) computed without fontTools' maxp helpers."""
@@ -158,10 +195,12 @@ def glyf_points(glyf, name, depth=0):
     return pts, npts, ncont, maxd + 1
 
 
-def read_glyph_data(tt):
-    """-> (order, boxes {name: box|None}, extra) from the stored outlines."""
+def read_glyph_data(tt, tol=0.5):
+    """-> (order, boxes {name: integer box|None}, extra) from the stored outlines; extra["raw"] has the
+    boxes of the stored coordinates (CFF charstrings may hold fractional coordinates)."""
     order = tt.getGlyphOrder()
     boxes, extra = {}, {}
+    raw = extra["raw"] = {}
     if "glyf" in tt:
         glyf = tt["glyf"]
         stats = {"maxPoints": 0, "maxContours": 0, "maxCompositePoints": 0, "maxCompositeContours": 0,
@@ -170,7 +209,7 @@ def read_glyph_data(tt):
         for name in order:
             g = glyf[name]
             pts, npts, ncont, d = glyf_points(glyf, name)
-            boxes[name] = _box_of(pts) if pts else None
+            boxes[name] = raw[name] = _box_of(pts) if pts else None
             if g.numberOfContours != 0:
                 hdr[name] = (g.xMin, g.yMin, g.xMax, g.yMax)
             if g.numberOfContours > 0:
@@ -189,7 +228,8 @@ def read_glyph_data(tt):
             pen = RecordingPen()
             gs[name].draw(pen)
             pts = [p for _, args in pen.value for p in args]
-            boxes[name] = _box_of(pts) if pts else None
+            raw[name] = _box_of(pts) if pts else None
+            boxes[name] = int_box(raw[name], tol) if pts else None
     return order, boxes, extra
 
 
@@ -249,11 +289,15 @@ def expected_fields(tt, order, boxes):
 class C04(Property):
     id = "C04"
     rule = ("state = (configuration, sequence of appended glyphs); configuration = part x flavour "
-            "{TTF, CFF, CFF2} x vertical metrics x .notdef {explicit, synthesised, empty} x keepGlyphNames; "
-            "non-trivial = the sequence has a trailing run of equal advances, an empty glyph, a composite or a "
-            "negative bearing")
+            "{TTF, CFF, CFF2} x vertical metrics x .notdef {explicit, synthesised, empty} x keepGlyphNames "
+            "(x roundTolerance {default, 0.25, 0.1, 0} in the fractional-outline part); "
+            "non-trivial = the sequence has a trailing run of equal advances, an empty glyph, a composite, a "
+            "negative bearing, an explicit vertical origin of 0 or a stored fractional extremum outside the tolerance")
     assumptions = [
         "outlines are axis-parallel boxes (on-curve extrema), components are translations",
+        "fractional coordinates are dyadic (x.25/x.5/x.75), exactly representable in floats and in 16.16 "
+        "charstring operands; integer box fields of a fractional outline are the enclosing integers (floor of "
+        "the minima, ceil of the maxima) unless the value is within roundTolerance of its rounding",
         "fontTools' sfnt/glyf/CFF/hmtx/cmap readers are the trusted decoder of the stored glyph data; "
         "fontTools recalculates hhea/vhea/maxp/head(TTF) when an in-memory font is saved, so ufo2ft's own "
         "values are additionally checked on the returned TTFont object before saving",
@@ -266,9 +310,11 @@ class C04(Property):
         # the 6-op sub-alphabet (advance x {none, box}) are continued to `small`
         if tier == "quick":
             return {"depth": 6, "base": {"full": 3, "small": 5}, "vertical": {"full": 3, "small": 3},
-                    "all": {"full": 2, "small": 2}, "v_maxlen": 3, "cp_maxlen": 3, "subr_len": 1}
+                    "all": {"full": 2, "small": 2}, "v_maxlen": 3, "vb_maxlen": 2, "cp_maxlen": 3, "subr_len": 1,
+                    "rt_maxlen": 2}
         return {"depth": 6, "base": {"full": 5, "small": 5}, "vertical": {"full": 4, "small": 4},
-                "all": {"full": 3, "small": 3}, "v_maxlen": 4, "cp_maxlen": 4, "subr_len": 2}
+                "all": {"full": 3, "small": 3}, "v_maxlen": 4, "vb_maxlen": 3, "cp_maxlen": 4, "subr_len": 2,
+                "rt_maxlen": 3}
 
     def initial(self, b):
         out = []
@@ -290,8 +336,18 @@ class C04(Property):
             for nd in ("explicit", "synth"):
                 out.append([{"part": "v", "flavour": fl, "vertical": True, "notdef": nd, "keep": True,
                              "maxlen": b["v_maxlen"] if nd == "explicit" else b["v_maxlen"] - 1}])
+            out.append([{"part": "v", "flavour": fl, "vertical": True, "notdef": "explicit", "keep": True,
+                         "vpal": "b", "maxlen": b["vb_maxlen"]}])
             out.append([{"part": "cp", "flavour": fl, "vertical": False, "notdef": "explicit", "keep": True,
                          "maxlen": b["cp_maxlen"]}])
+        # fractional outlines x roundTolerance (the tolerance is a CFF option; TTF always rounds)
+        for fl in FLAVOURS:
+            for tol in (RT_TOLERANCES if fl != "ttf" else [None]):
+                for v in (False, True):
+                    if v and tol not in (None, 0.1):
+                        continue
+                    out.append([{"part": "rt", "flavour": fl, "vertical": v, "notdef": "explicit", "keep": True,
+                                 "tol": tol, "maxlen": b["rt_maxlen"]}])
         return out
 
     def ops(self, h, b):
@@ -310,7 +366,9 @@ class C04(Property):
         if n >= cfg["maxlen"]:
             return ()
         if cfg["part"] == "v":
-            return V_OPS
+            return V_OPS[cfg.get("vpal", "a")]
+        if cfg["part"] == "rt":
+            return RT_OPS
         used = set(op for op in h[1:] if op is not None)
         return [cp for cp in CP_PALETTE if cp is None or cp not in used]
 
@@ -326,6 +384,10 @@ class C04(Property):
             if len(viols) < 10:
                 viols.append(violation(kind, dict(feat0, **(feats or {})), config=cfg, **detail))
 
+        tol = cfg.get("tol")
+        eff_tol = 0.5 if tol is None else float(tol)
+        if cfg["part"] == "rt":
+            feat0["tol"] = tol
         opt = cfg.get("opt", 1)
         if opt != 1:
             feat0["opt"] = opt
@@ -334,7 +396,7 @@ class C04(Property):
                  "notdef": cfg["notdef"],
                  "outlines": cfg["notdef"] != "empty" or any(x["kind"] != "none" for x in src.values())}
         try:
-            otf = compile_font(spec, flavour, opt)
+            otf = compile_font(spec, flavour, opt, tol)
         except Exception as e:  # "can be compiled and saved" is the property: classify, do not crash
             bad("cannot-compile", dict(efeat, type=type(e).__name__), message=str(e)[:300])
             return Result(viols, ctrs, "cannot-compile", 1, False, 0)
@@ -357,6 +419,9 @@ class C04(Property):
             vt = otf["VORG"]
             mem_vorg = (vt.defaultVertOriginY, dict(vt.VOriginRecords))
         mem_order = otf.getGlyphOrder()
+        mem_fbb = None
+        if flavour == "otf":
+            mem_fbb = tuple(otf["CFF "].cff.topDictIndex[0].FontBBox)
 
         # ---- serialisation round trips ---------------------------------------------------------
         try:
@@ -377,7 +442,8 @@ class C04(Property):
 
         # ---- stored glyph data ------------------------------------------------------------------
         tt = TTFont(io.BytesIO(b1))
-        order, boxes, extra = read_glyph_data(tt)
+        order, boxes, extra = read_glyph_data(tt, eff_tol)
+        stored = extra["raw"]
         names_kept = cfg["keep"] or flavour == "otf"
         if names_kept:
             if order != want_order:
@@ -406,7 +472,7 @@ class C04(Property):
             if s is not None and adv != R.otround(s["adv"]):
                 bad("advance-not-source", {"table": "hmtx"}, glyph=sname, expected=R.otround(s["adv"]), observed=adv)
             if box is not None and lsb != box[0]:
-                bad("bearing-not-extremum", {"table": "hmtx"}, glyph=sname, lsb=lsb, box=box)
+                bad("bearing-not-extremum", {"table": "hmtx"}, glyph=sname, lsb=lsb, box=box, stored=stored[name])
             if s is not None and (box is None) != (s["kind"] == "none"):
                 bad("outline-presence", {}, glyph=sname, box=box, kind=s["kind"])
             if vm is not None:
@@ -416,7 +482,8 @@ class C04(Property):
                     bad("advance-not-source", {"table": "vmtx"}, glyph=sname, expected=R.otround(s["height"]),
                         observed=ht)
                 if box is not None and s is not None and tsb != vorg - box[3]:
-                    bad("bearing-not-extremum", {"table": "vmtx"}, glyph=sname, tsb=tsb, vorg=vorg, box=box)
+                    bad("bearing-not-extremum", {"table": "vmtx"}, glyph=sname, tsb=tsb, vorg=vorg, box=box,
+                        stored=stored[name])
         for name, hb in extra.get("glyf_header", {}).items():
             if boxes[name] is not None and tuple(hb) != tuple(boxes[name]):
                 bad("glyf-header-bbox", {}, glyph=name, header=hb, points=boxes[name])
@@ -433,6 +500,15 @@ class C04(Property):
                 if tag in mem and f in mem[tag] and mem[tag][f] != want:
                     bad("derived-field", {"table": tag, "field": f, "where": "compiled-object"}, expected=want,
                         observed=mem[tag][f], advances=[hm[n][0] for n in order], boxes=[boxes[n] for n in order])
+        # CFF 1 FontBBox (CFF2 has none): the union of the integer glyph boxes, as returned and as reloaded
+        if flavour == "otf":
+            want_fbb = tuple(exp["head"][f] for f in ("xMin", "yMin", "xMax", "yMax"))
+            for where, got in (("reloaded", tuple(tt["CFF "].cff.topDictIndex[0].FontBBox)),
+                               ("compiled-object", mem_fbb)):
+                if tuple(got) != want_fbb:
+                    bad("derived-field", {"table": "CFF", "field": "FontBBox", "where": where}, expected=want_fbb,
+                        observed=got, stored=[stored[n] for n in order])
+            ctrs["cff_fontbbox_checked"] = 1
         # raw metrics tables: 4 bytes per long metric + 2 per remaining glyph
         for mtx, hea, f in (("hmtx", "hhea", "numberOfHMetrics"), ("vmtx", "vhea", "numberOfVMetrics")):
             if mtx in tt:
@@ -529,6 +605,31 @@ class C04(Property):
             ctrs["half_integer_height"] = 1
         if "VORG" in tt and any(s["vorg"] is not None and s["vorg"] != int(s["vorg"]) for s in src.values()):
             ctrs["half_integer_vertical_origin"] = 1
+        if "vmtx" in tt and any(s["vorg"] == 0 and s["vorg"] is not None for s in src.values()):
+            ctrs["explicit_vertical_origin_zero"] = 1
+            nt = True
+            if any(s["vorg"] == 0 and s["kind"] != "none" for s in src.values()):
+                ctrs["explicit_vertical_origin_zero_with_outline"] = 1
+        if "vmtx" in tt and any(s["vorg"] is not None and s["vorg"] < 0 for s in src.values()):
+            ctrs["negative_vertical_origin"] = 1
+        if tol is not None:
+            ctrs["custom_round_tolerance"] = 1
+        for n in order:
+            rb = stored[n]
+            if rb is None:
+                continue
+            for i, v in enumerate(rb):
+                if v == int(v):
+                    continue
+                ctrs["stored_fractional_extremum"] = 1
+                if abs(R.otround(v) - v) <= eff_tol:  # unreachable with a pen that rounds with the same tolerance
+                    ctrs["stored_fractional_extremum_within_tolerance"] = 1
+                    continue
+                nt = True
+                side = "min" if i < 2 else "max"
+                ctrs["fractional_%s_%s_outside_tolerance" % ("negative" if v < 0 else "positive", side)] = 1
+                if v < 0 and i == 0 and hm[n][1] == exp["hhea"]["minLeftSideBearing"]:
+                    ctrs["fractional_negative_xmin_is_min_lsb"] = 1
         if exp["OS/2"]["usLastCharIndex"] == 0xFFFF:
             ctrs["last_char_index_clamped_or_ffff"] = 1
         if "vhea" in exp and exp["vhea"]["numberOfVMetrics"] < len(order):
@@ -546,7 +647,12 @@ class C04(Property):
                 "first_glyph_empty", "no_outlines_at_all", "negative_lsb", "negative_rsb", "has_composite",
                 "nested_composite", "half_integer_advance", "post_format_3", "vorg_mixed_origins",
                 "vorg_first_glyph_in_minority", "vorg_tied_majority", "trailing_equal_heights",
-                "half_integer_height", "half_integer_vertical_origin",
+                "half_integer_height", "half_integer_vertical_origin", "explicit_vertical_origin_zero",
+                "explicit_vertical_origin_zero_with_outline", "negative_vertical_origin",
+                "custom_round_tolerance", "cff_fontbbox_checked", "stored_fractional_extremum",
+                "fractional_negative_min_outside_tolerance", "fractional_negative_max_outside_tolerance",
+                "fractional_positive_min_outside_tolerance", "fractional_positive_max_outside_tolerance",
+                "fractional_negative_xmin_is_min_lsb",
                 "last_char_index_clamped_or_ffff"]
         return [violation("vacuous", {"counter": k}) for k in need if not c.get(k)]
 
